@@ -33,6 +33,7 @@ type solveOpts struct {
 	workDir   string
 	keepFiles bool
 	allAgree  bool // thorough: run all solvers and require no contradiction
+	noRetry   bool
 	seed      int
 }
 
@@ -150,20 +151,42 @@ func discharge(o *Obligation, opt *solveOpts, idx int) {
 	if hasQ && !o.Cover {
 		rfile := file + ".relaxed.smt2"
 		os.WriteFile(rfile, []byte(o.scriptR(opt.seed, true)), 0o644)
-		v, out, _ := runSolver(ctx, solvers[0], rfile, opt.fast)
-		if !opt.keepFiles {
-			os.Remove(rfile)
+		// z3-new and z3 4.8 side by side: on quantifier-free UF+BV queries either can be far faster
+		type rres struct{ v, out, name string }
+		rch := make(chan rres, 2)
+		rc, rcancel := context.WithCancel(ctx)
+		for _, sv := range solvers[:2] {
+			sv := sv
+			go func() {
+				v, out, _ := runSolver(rc, sv, rfile, opt.fast)
+				rch <- rres{v, out, sv.name}
+			}()
 		}
-		if v == "unsat" {
-			o.Verdict, o.Solver, o.Raw = v, solvers[0].name+"(qf-relaxed)", out
+		var first *rres
+		for k := 0; k < 2; k++ {
+			r := <-rch
+			if r.v == "unsat" || r.v == "sat" {
+				first = &r
+				break
+			}
+		}
+		rcancel()
+		if !opt.keepFiles {
+			defer os.Remove(rfile)
+		}
+		if first != nil && first.v == "unsat" {
+			o.Verdict, o.Solver, o.Raw = "unsat", first.name+"(qf-relaxed)", first.out
 			return
 		}
-		if v == "sat" {
-			relaxedSat = out
+		if first != nil && first.v == "sat" {
+			relaxedSat = first.out
 		}
 	}
 	defer func() {
 		// no definite answer on the full query: keep the candidate model of the relaxed one
+		if o.Verdict == "timeout" {
+			o.TimedOut = true
+		}
 		if (o.Verdict == "unknown" || o.Verdict == "timeout") && relaxedSat != "" {
 			o.Raw = relaxedSat
 			o.Relaxed = true
@@ -206,6 +229,9 @@ func discharge(o *Obligation, opt *solveOpts, idx int) {
 		}
 		racers = append(racers, solverCfg{"z3-new/lambda", solvers[0].args})
 	}
+	// (z3's int-blasting bit-vector solver, smt.bv.solver=2, was tried here for linear arithmetic over
+	// wide bit-vectors and removed: z3 5.1.0 answered unsat with it on a satisfiable query - caught by
+	// the reachability covers of canary.(*Canary).send.)
 	if hasQ {
 		// quantifier instantiation order depends on symbol names and the random seed: two more seeds make
 		// a proof that exists robust against renamings elsewhere in the tree
@@ -292,6 +318,19 @@ func dischargeAll(obls []*Obligation, opt *solveOpts) {
 	}
 	close(ch)
 	wg.Wait()
+	// obligations that ran out of time while all workers were busy get a second, sequential attempt
+	// with three times the time: a slow but stable proof must not become an alarm under load
+	if !opt.noRetry {
+		ropt := *opt
+		ropt.timeout = opt.timeout * 3
+		ropt.noRetry = true
+		for i, o := range obls {
+			if o.Verdict == "timeout" && !o.Cover {
+				o.Verdict, o.Raw, o.Solver, o.Relaxed = "", "", "", false
+				discharge(o, &ropt, i)
+			}
+		}
+	}
 }
 
 // parseGetValue extracts ((term value) ...) pairs in order.
@@ -371,7 +410,7 @@ func lastTerm(p string) string {
 func vacuous(obls []*Obligation) (bad []*Obligation, dead []*Obligation) {
 	type st struct {
 		rets, deadRets int
-		sample *Obligation
+		sample         *Obligation
 	}
 	per := map[string]*st{}
 	for _, o := range obls {
